@@ -246,4 +246,36 @@ example : ∃ s, StopReachable 2 1 s ∧ s.ws = [.dead 0, .dead killCode] ∧ s.
     { putsLeft := 0, nones := 1, shutdown := true, ws := [.dead 0, .dead killCode] })
   exact ⟨_, h5, rfl, rfl⟩
 
+/-- **`stop()` after a failure never blocks.**  When `play_many` has raised (every worker killed,
+    up to 2W ids still in `cmd`), the `finally: engine.stop()` of `play_many_games` makes at most W
+    non-blocking put attempts and then either returns (iff the W `None`s fit: `cmd ≤ W`; every
+    process is dead, so every `join` returns) or propagates `queue.Full` (iff `W < cmd`) — it is
+    never left waiting: the whole request still fails loudly in bounded time. -/
+theorem C18_stop_after_raise {c : Cfg} {s : State} (h : Reachable c s) (hW : 1 ≤ c.W) :
+    stopAfterRaise false (2 * c.W) s.cmd c.W ≠ .blocked ∧
+    (stopAfterRaise false (2 * c.W) s.cmd c.W = .joined ↔ s.cmd ≤ c.W) ∧
+    (stopAfterRaise false (2 * c.W) s.cmd c.W = .full ↔ c.W < s.cmd) ∧
+    putAttempts (2 * c.W) s.cmd c.W ≤ c.W ∧
+    ∀ w ∈ (killAll s).ws, ∃ k, w = WState.dead k := by
+  have _hb := (C18_queue_bounds h).1
+  obtain ⟨h1, h2, h3⟩ := stopAfterRaise_nonblocking (2 * c.W) c.W s.cmd
+  refine ⟨h3, ?_, ?_, putAttempts_le _ _ _, killAll_dead s⟩
+  · rw [h1]; omega
+  · rw [h2]; omega
+
+/-- a raise with a backlog: N = 5 on one worker whose first game raises; `cmd` is full again -/
+example : ∃ s, run { N := 5, W := 1, failCode := 1 } (fresh { N := 5, W := 1, failCode := 1 })
+      [.put, .put, .start 0, .take 0, .put, .gameFail 0, .poll] = some s ∧
+    s.phase = .raised ∧ s.cmd = 2 ∧ stopAfterRaise false 2 s.cmd 1 = .full := by
+  refine ⟨{ todo := 2, cmd := 2, games := 0, logs := 0, lost := 1, ws := [.dead 1], phase := .raised }, ?_⟩
+  decide
+
+/-- **A blocking `put(None)` in `stop()` hangs the request** exactly when the backlog leaves fewer
+    than W free slots: nobody reads `cmd` after the kill. -/
+theorem C18_stop_blocking_hangs {c : Cfg} {s : State} (hW : 1 ≤ c.W) :
+    stopAfterRaise true (2 * c.W) s.cmd c.W = .blocked ↔ c.W < s.cmd := by
+  rw [stopAfterRaise_blocking]; omega
+
+example : stopAfterRaise true 2 2 1 = .blocked := by decide
+
 end Tak.C18
